@@ -11,9 +11,9 @@ EXTENDS HclExpr
 CONSTANTS MaxD,        \* nesting depth of generated ASTs
           Level2       \* which wrapper families are allowed above depth 1: "all" | "core"
 
-VARIABLES e, d, pred, last
+VARIABLES e, d, pred, last, fv
 
-vars == <<e, d, pred, last>>
+vars == <<e, d, pred, last, fv>>
 
 ---------------------------------------------------------------------------
 (* The evaluation scope: one value of every kind. *)
@@ -143,11 +143,13 @@ Init == /\ e \in Leaves
         /\ d = 0
         /\ pred = Result(e)
         /\ last = "leaf"
+        /\ fv = FreeVars(e)
 
 Step(fam, S) == /\ e' \in S
                 /\ d' = d + 1
                 /\ pred' = Result(e')
                 /\ last' = fam
+                /\ fv' = FreeVars(e')
 
 Full == d = 0 \/ Level2 = "all"
 
@@ -188,7 +190,6 @@ Total == pred.err \in BOOLEAN /\ pred.v.k \in {"num", "str", "bool", "null", "un
 
 \* C07 at design level: evaluation depends only on the free variables
 DependsOnlyOnFreeVars ==
-    LET fv == FreeVars(e)
-        pruned == [x \in (ScopeNames \cap fv) |-> Scope[x]]
+    LET pruned == [x \in (ScopeNames \cap fv) |-> Scope[x]]
     IN Eval(e, pruned) = pred
 =============================================================================
